@@ -129,8 +129,9 @@ type replayCfg struct {
 	Prefixes  []string // watch prefix id -> relative raw prefix
 	CacheSize int
 	SeqDetail bool
-	TsoDetail bool // tso.Commit in two steps (the sequencer also parks at tso.commit)
-	SubCap    int  // > 0: abstract subscriber buffer capacity, realised with filler batches
+	TsoDetail bool   // tso.Commit in two steps (the sequencer also parks at tso.commit)
+	API       string // "" / "native": backend API; "etcd": writes go through the etcd-compatible Txn handler
+	SubCap    int    // > 0: abstract subscriber buffer capacity, realised with filler batches
 	Timeout   time.Duration
 }
 
@@ -299,6 +300,7 @@ type runState struct {
 	maxRev     uint64
 	compactors map[string]bool
 	panicked   bool
+	api        *api
 	readers    map[string]bool
 	readN      map[string]int
 	readRes    map[string]rdOutcome
@@ -334,7 +336,7 @@ func (rs *runState) launchWriter(p string) error {
 				env.Sched.Finish(p)
 			}
 		}()
-		r := callOp(env, o)
+		r := rs.api.write(o)
 		env.Rec.Log(gate.Event{"e": "Return", "p": p, "i": i + 1, "op": o.Type, "k": o.Key, "exp": gate.Clip(o.Exp), "v": o.Val,
 			"succ": r.Succ, "hdr": gate.Clip(r.Hdr), "kvrev": gate.Clip(r.KvRev), "kvval": r.KvVal, "err": r.Err})
 		rs.resMu.Lock()
@@ -758,10 +760,10 @@ func (rs *runState) compareFinal() []string {
 func replayOne(cfg replayCfg, eng *kb.Engine, b *behaviour, rep *replayReport) []gate.Event {
 	keyNames := cfg.KeyNames[:len(b.KInit)]
 	hasWatchers := len(b.XReq) > 0 && b.XReq[0] == '{'
-	env := kb.NewEnv(kb.Options{Engine: eng, KeyNames: keyNames, Gated: true, Park: parkLabels(cfg.SeqDetail, hasWatchers, cfg.TsoDetail),
+	env := kb.NewEnv(kb.Options{Engine: eng, KeyNames: keyNames, Gated: true, Etcd: cfg.API == "etcd", Park: parkLabels(cfg.SeqDetail, hasWatchers, cfg.TsoDetail),
 		Base: cfg.Base, CacheSize: cfg.CacheSize, Record: true})
 	defer env.Retire()
-	rs := &runState{cfg: cfg, env: env, b: b, opIdx: map[string]int{}, results: map[string][]opResult{}, watch: map[string]*watchState{}, compactors: map[string]bool{}, readers: map[string]bool{}, readN: map[string]int{}, readRes: map[string]rdOutcome{}}
+	rs := &runState{cfg: cfg, env: env, b: b, opIdx: map[string]int{}, results: map[string][]opResult{}, watch: map[string]*watchState{}, compactors: map[string]bool{}, readers: map[string]bool{}, readN: map[string]int{}, readRes: map[string]rdOutcome{}, api: newAPI(env, cfg.API)}
 	for k, st := range b.KInit {
 		if err := seedKey(env, k+1, st); err != nil {
 			rep.Errors++
@@ -888,6 +890,7 @@ func cmdReplay(args []string) int {
 	cache := fs.Int("cache", 0, "watch cache size (0 = default)")
 	seqDetail := fs.Bool("seqdetail", false, "cache insert is a separate sequencer step")
 	tsoDetail := fs.Bool("tsodetail", false, "tso.Commit is two sequencer steps (implies -seqdetail)")
+	apiKind := fs.String("api", "native", "native | etcd: the API the writers use")
 	base := fs.Uint64("base", 3, "base revision")
 	subcap := fs.Int("subcap", 0, "abstract subscriber buffer capacity (0 = no scaling)")
 	fs.Parse(args)
@@ -905,7 +908,7 @@ func cmdReplay(args []string) int {
 		return 2
 	}
 	defer eng.Close()
-	cfg := replayCfg{Engine: *engine, Base: *base, KeyNames: defaultKeyNames, Prefixes: defaultPrefixes, CacheSize: *cache, SeqDetail: *seqDetail || *tsoDetail, TsoDetail: *tsoDetail, SubCap: *subcap, Timeout: 3 * time.Second}
+	cfg := replayCfg{Engine: *engine, Base: *base, KeyNames: defaultKeyNames, Prefixes: defaultPrefixes, CacheSize: *cache, SeqDetail: *seqDetail || *tsoDetail, TsoDetail: *tsoDetail, API: *apiKind, SubCap: *subcap, Timeout: 3 * time.Second}
 	rep := &replayReport{ActionCount: map[string]int{}, Engine: *engine}
 	start := time.Now()
 	w, err := os.Create(*out)
